@@ -24,6 +24,7 @@ class PathAbort(Exception):
     """Path ended deliberately (cut point)."""
 
 
+_VALID_MEMO = {}    # (ids of the pc terms, id of the goal) -> (backend, pc, goal) for proved obligations (terms kept alive)
 _SEQFREE = {}       # AST id -> "has no sequence-sorted sub-term" (process-wide memo of PathCtx.seq_free)
 _SEQFREE_KEEP = []  # references to the memoised ASTs (z3 may recycle the id of a freed AST)
 
@@ -266,7 +267,16 @@ class PathCtx:
             goal = z3.BoolVal(False)
         else:
             goal = term
+        # paths that share a prefix reach the same clause under the same path condition: a proved (pc => goal) is reused.
+        # Only "valid" verdicts are memoised; the key is the identity of the z3 terms (kept alive in the memo).
+        key = (tuple(a.get_id() for a in self.pc), goal.get_id())
+        hit = _VALID_MEMO.get(key)
+        if hit is not None:
+            self.obls.append(Obl(label, "discharged", backend=hit[0], secs=0.0, path=list(self.decisions), kind=kind))
+            return True
         res = solve.check_valid(self.pc, goal, self.cfg, inputs=self.inputs)
+        if res.status == "unsat":
+            _VALID_MEMO[key] = (res.backend, list(self.pc), goal)
         secs = time.time() - t0
         self.solver_secs += secs
         self.solver_calls += 1
